@@ -5,48 +5,91 @@ package main
 //
 //   cli <argv> <stdin> <files> <flags>
 //     argv   "-" (no arguments) or comma-separated hex arguments ("e" = empty argument)
-//     stdin  hex bytes, or "-" for no stdin data (the binary's stdin is /dev/null)
-//     files  "-" or name:data[:kind];...  (hex name relative to the directory, hex data;
-//            kind "d" = create a directory of that name instead of a file)
+//     stdin  hex bytes, or "-" for no stdin data (the binary's stdin is /dev/null), or
+//            staged: <hex first>:<hex rest> -- stdin is a pipe that STAYS OPEN: `first` is
+//            written, the harness waits (see w= / d=), records `early`, then writes `rest`
+//            and closes the pipe
+//     files  "-" or name:data[:kind[:rest]];...  (hex name relative to the directory, hex data;
+//            kind "d" = create a directory of that name instead of a file,
+//            kind "r" = a file without write permission (mode 0444; the answer's `wdenied`
+//                       says whether that actually keeps this process from writing to it),
+//            kind "p" = a named pipe (FIFO): `data` is written into it, the harness waits,
+//                       records `early`, then writes `rest` and closes its end)
 //     flags  "-" or comma-separated: o=<hex name> (file to read back as `ofile`),
-//            t=<milliseconds> (time limit, default 10000)
+//            t=<milliseconds> (time limit, default 10000),
+//            w=<n> staged input: wait until the binary's stdout holds at least n bytes
+//                  (default 1) ...
+//            d=<milliseconds> ... or this much time has passed (default 2500)
 //
 // Answer: R exit=<n> out=<hex stdout> errlen=<n> stderr=<hex> ofile=<hex | -> ofexists=<0|1> class=cli<n>
-// (class=nobinary when JQAWK_BIN is not set, class=timeout when the limit is hit).
+// (class=nobinary when JQAWK_BIN is not set, class=timeout when the limit is hit); with a staged
+// input also early=<hex of the stdout seen at the end of the wait> earlyms=<how long the wait took>;
+// with a kind "r" file also wdenied=<0|1>.
+//
+// At most one staged input (stdin or one FIFO) per request. The model knows neither staging nor
+// FIFOs nor permissions: give such cases a ModelReq with the same bytes in plain files / plain stdin.
 
 import (
 	"bytes"
 	"context"
 	"fmt"
+	"io"
 	"os"
 	"os/exec"
 	"path/filepath"
 	"strconv"
 	"strings"
+	"sync"
+	"syscall"
 	"time"
 )
 
 // CliFile is one file (or directory) placed in the binary's working directory.
 type CliFile struct {
-	Name string
-	Data []byte
-	Dir  bool
+	Name     string
+	Data     []byte
+	Dir      bool
+	ReadOnly bool   // kind "r": chmod 0444
+	Fifo     bool   // kind "p": a named pipe fed with Data, then (after the wait) Rest
+	Rest     []byte // second part of a FIFO's data
+}
+
+func cliArgvField(argv []string) string {
+	if len(argv) == 0 {
+		return "-"
+	}
+	parts := make([]string, len(argv))
+	for i, x := range argv {
+		if x == "" {
+			parts[i] = "e"
+		} else {
+			parts[i] = hxs(x)
+		}
+	}
+	return strings.Join(parts, ",")
+}
+
+func cliFilesField(files []CliFile) string {
+	if len(files) == 0 {
+		return "-"
+	}
+	parts := make([]string, len(files))
+	for i, x := range files {
+		parts[i] = hxs(x.Name) + ":" + hx(x.Data)
+		switch {
+		case x.Dir:
+			parts[i] += ":d"
+		case x.ReadOnly:
+			parts[i] += ":r"
+		case x.Fifo:
+			parts[i] += ":p:" + hx(x.Rest)
+		}
+	}
+	return strings.Join(parts, ";")
 }
 
 // CliReq builds a "cli" request line. stdin == nil means "no stdin data".
 func CliReq(argv []string, stdin []byte, hasStdin bool, files []CliFile, ofile string) string {
-	a := "-"
-	if len(argv) > 0 {
-		parts := make([]string, len(argv))
-		for i, x := range argv {
-			if x == "" {
-				parts[i] = "e"
-			} else {
-				parts[i] = hxs(x)
-			}
-		}
-		a = strings.Join(parts, ",")
-	}
 	in := "-"
 	if hasStdin {
 		in = hx(stdin)
@@ -54,22 +97,68 @@ func CliReq(argv []string, stdin []byte, hasStdin bool, files []CliFile, ofile s
 			in = "e"
 		}
 	}
-	f := "-"
-	if len(files) > 0 {
-		parts := make([]string, len(files))
-		for i, x := range files {
-			parts[i] = hxs(x.Name) + ":" + hx(x.Data)
-			if x.Dir {
-				parts[i] += ":d"
-			}
-		}
-		f = strings.Join(parts, ";")
-	}
 	fl := "-"
 	if ofile != "" {
 		fl = "o=" + hxs(ofile)
 	}
-	return "cli " + a + " " + in + " " + f + " " + fl
+	return "cli " + cliArgvField(argv) + " " + in + " " + cliFilesField(files) + " " + fl
+}
+
+// CliStagedReq builds a "cli" request whose input arrives in two parts: through stdin when
+// stdinFirst/stdinRest are given (staged == "stdin"), else through the FIFO among files.
+// waitBytes is the stdout length the harness waits for before it records `early`.
+func CliStagedReq(argv []string, staged string, stdinFirst, stdinRest []byte, files []CliFile, waitBytes int) string {
+	in := "-"
+	if staged == "stdin" {
+		in = hx(stdinFirst) + ":" + hx(stdinRest)
+	}
+	return "cli " + cliArgvField(argv) + " " + in + " " + cliFilesField(files) + " " + fmt.Sprintf("w=%d", waitBytes)
+}
+
+// growBuf collects a stream and lets others wait for it to reach a length.
+type growBuf struct {
+	mu   sync.Mutex
+	buf  []byte
+	wake chan struct{}
+}
+
+func newGrowBuf() *growBuf { return &growBuf{wake: make(chan struct{}, 1)} }
+
+func (g *growBuf) Write(p []byte) (int, error) {
+	g.mu.Lock()
+	g.buf = append(g.buf, p...)
+	g.mu.Unlock()
+	select {
+	case g.wake <- struct{}{}:
+	default:
+	}
+	return len(p), nil
+}
+
+func (g *growBuf) snapshot() []byte {
+	g.mu.Lock()
+	defer g.mu.Unlock()
+	return append([]byte{}, g.buf...)
+}
+
+// waitLen waits until the buffer holds n bytes, done is closed, or the deadline passes.
+func (g *growBuf) waitLen(n int, done <-chan struct{}, limit time.Duration) {
+	deadline := time.After(limit)
+	for {
+		g.mu.Lock()
+		l := len(g.buf)
+		g.mu.Unlock()
+		if l >= n {
+			return
+		}
+		select {
+		case <-g.wake:
+		case <-done:
+			return
+		case <-deadline:
+			return
+		}
+	}
 }
 
 func implCli(fields []string) string {
@@ -96,6 +185,11 @@ func implCli(fields []string) string {
 		return "R class=crash msg=no_temp_dir"
 	}
 	defer os.RemoveAll(dir)
+	// staged input: what to write first, what after the wait, and where
+	var stageFirst, stageRest []byte
+	var stageW io.WriteCloser
+	staged := false
+	extra := ""
 	if fields[3] != "-" {
 		for _, f := range strings.Split(fields[3], ";") {
 			parts := strings.Split(f, ":")
@@ -109,17 +203,56 @@ func implCli(fields []string) string {
 			}
 			path := filepath.Join(dir, string(name))
 			os.MkdirAll(filepath.Dir(path), 0o755)
-			if len(parts) >= 3 && parts[2] == "d" {
+			kind := ""
+			if len(parts) >= 3 {
+				kind = parts[2]
+			}
+			switch kind {
+			case "d":
 				os.MkdirAll(path, 0o755)
-			} else if err := os.WriteFile(path, data, 0o644); err != nil {
-				return "R class=crash msg=cannot_write_file"
+			case "p":
+				if staged || len(parts) < 4 {
+					return "R class=badrequest"
+				}
+				rest, err := unhx(parts[3])
+				if err != nil {
+					return "R class=badrequest"
+				}
+				if err := syscall.Mkfifo(path, 0o644); err != nil {
+					return "R class=crash msg=cannot_make_fifo"
+				}
+				// read-write: the open does not wait for the binary, and the binary sees
+				// end of input only when this descriptor is closed
+				fp, err := os.OpenFile(path, os.O_RDWR, 0)
+				if err != nil {
+					return "R class=crash msg=cannot_open_fifo"
+				}
+				staged, stageFirst, stageRest, stageW = true, data, rest, fp
+			default:
+				if err := os.WriteFile(path, data, 0o644); err != nil {
+					return "R class=crash msg=cannot_write_file"
+				}
+				if kind == "r" {
+					os.Chmod(path, 0o444)
+					denied := 1
+					if fp, err := os.OpenFile(path, os.O_WRONLY, 0); err == nil {
+						fp.Close()
+						denied = 0
+					}
+					extra += fmt.Sprintf(" wdenied=%d", denied)
+				}
 			}
 		}
 	}
 	limit := 10 * time.Second
+	waitBytes, waitLimit := 1, 2500*time.Millisecond
 	ofile := ""
 	if fields[4] != "-" {
 		for _, fl := range strings.Split(fields[4], ",") {
+			num := func() (int, bool) {
+				n, err := strconv.Atoi(fl[2:])
+				return n, err == nil
+			}
 			switch {
 			case strings.HasPrefix(fl, "o="):
 				b, err := unhx(fl[2:])
@@ -128,11 +261,23 @@ func implCli(fields []string) string {
 				}
 				ofile = string(b)
 			case strings.HasPrefix(fl, "t="):
-				ms, err := strconv.Atoi(fl[2:])
-				if err != nil {
+				ms, ok := num()
+				if !ok {
 					return "R class=badrequest"
 				}
 				limit = time.Duration(ms) * time.Millisecond
+			case strings.HasPrefix(fl, "w="):
+				n, ok := num()
+				if !ok {
+					return "R class=badrequest"
+				}
+				waitBytes = n
+			case strings.HasPrefix(fl, "d="):
+				ms, ok := num()
+				if !ok {
+					return "R class=badrequest"
+				}
+				waitLimit = time.Duration(ms) * time.Millisecond
 			}
 		}
 	}
@@ -140,7 +285,24 @@ func implCli(fields []string) string {
 	defer cancel()
 	cmd := exec.CommandContext(ctx, bin, argv...)
 	cmd.Dir = dir
-	if fields[2] != "-" {
+	switch {
+	case strings.Contains(fields[2], ":"):
+		if staged {
+			stageW.Close()
+			return "R class=badrequest"
+		}
+		p := strings.SplitN(fields[2], ":", 2)
+		first, err1 := unhx(p[0])
+		rest, err2 := unhx(p[1])
+		if err1 != nil || err2 != nil {
+			return "R class=badrequest"
+		}
+		w, err := cmd.StdinPipe()
+		if err != nil {
+			return "R class=crash msg=no_stdin_pipe"
+		}
+		staged, stageFirst, stageRest, stageW = true, first, rest, w
+	case fields[2] != "-":
 		data := []byte{}
 		if fields[2] != "e" {
 			data, err = unhx(fields[2])
@@ -150,9 +312,52 @@ func implCli(fields []string) string {
 		}
 		cmd.Stdin = bytes.NewReader(data)
 	} // else: nil = /dev/null
-	var so, se bytes.Buffer
-	cmd.Stdout, cmd.Stderr = &so, &se
-	runErr := cmd.Run()
+	so := newGrowBuf()
+	var se bytes.Buffer
+	cmd.Stdout, cmd.Stderr = so, &se
+	var runErr error
+	if !staged {
+		runErr = cmd.Run()
+	} else {
+		if runErr = cmd.Start(); runErr != nil {
+			stageW.Close()
+			return "R class=crash msg=" + strings.ReplaceAll(fmt.Sprint(runErr), " ", "_")
+		}
+		// done: the process has ended and its output has been collected. (Wait also closes the
+		// stdin pipe, which releases a feeder blocked in a write.)
+		done := make(chan struct{})
+		go func() {
+			runErr = cmd.Wait()
+			close(done)
+		}()
+		var early []byte
+		var waited time.Duration
+		fed := make(chan struct{})
+		go func() {
+			defer close(fed)
+			stageW.Write(stageFirst)
+			t0 := time.Now()
+			so.waitLen(waitBytes, done, waitLimit)
+			waited = time.Since(t0)
+			early = so.snapshot()
+			stageW.Write(stageRest)
+			stageW.Close()
+		}()
+		select {
+		case <-fed:
+		case <-done:
+			// the binary ended without reading everything: a write into a full FIFO
+			// would block for good; closing the descriptor releases it
+			select {
+			case <-fed:
+			case <-time.After(200 * time.Millisecond):
+				stageW.Close()
+				<-fed
+			}
+		}
+		<-done
+		extra += fmt.Sprintf(" early=%s earlyms=%d", hx(early), waited.Milliseconds())
+	}
 	if ctx.Err() == context.DeadlineExceeded {
 		return "R class=timeout"
 	}
@@ -170,5 +375,6 @@ func implCli(fields []string) string {
 	if se.Len() > 0 {
 		errFlag = 1
 	}
-	return fmt.Sprintf("R exit=%d out=%s err=%d errlen=%d stderr=%s ofile=%s ofexists=%d class=cli%d", exit, hx(so.Bytes()), errFlag, se.Len(), hx(se.Bytes()), of, ofexists, exit)
+	outB := so.snapshot()
+	return fmt.Sprintf("R exit=%d out=%s err=%d errlen=%d stderr=%s ofile=%s ofexists=%d%s class=cli%d", exit, hx(outB), errFlag, se.Len(), hx(se.Bytes()), of, ofexists, extra, exit)
 }
